@@ -10,6 +10,21 @@ TB = ("Trusted: Lean 4.33 kernel; axioms ⊆ {propext, Classical.choice, Quot.so
       "against the compiled Lean driver) and by regenerated source facts — both trusted, not proved. ")
 
 CLAIMED = {
+ "C08": dict(
+   text="Theorems: carrier precedence of the requested id (header, else lastEventID, else the legacy parameter only under version-7 compatibility); a Last-Event-ID response header exactly when one was requested; for the Bolt negotiation over any stored history: response = requested iff the id is stored (then everything after its first occurrence is replayed), 'earliest' replays the whole retained history, in every other case the response differs and nothing is replayed; the local transport always answers 'earliest'. Tie: the real SubscribeHandler on all 2^3 carrier combinations x id classes x compat x histories (empty, truncated by retention, containing 'earliest' as an id) x transports, response header and replayed stream compared with the model.",
+   note=TB + "Sequential negotiation (nothing published during the scan); publishes concurrent with the scan are C07's.",
+   technique="Lean 4 proof (list induction on the stored history) + differential correspondence through the HTTP handler",
+   design="§8 C08"),
+ "C10": dict(
+   text="Theorems over the retention machine (append under the next sequence, then delete every key <= last-size when the cleanup coin says so), for every size and every coin sequence: the retained history is a contiguous suffix of the accepted updates with consecutive sequence numbers, it never holds fewer than min(n,size), exactly that many when cleanup always runs, size 0 keeps everything, and a replay from any retained id returns exactly the accepted updates after it. Tie: real BoltTransport histories with the model as acceptor of the runtime's coin (bucket keys read back after every publish), payloads spanning B-tree pages, restarts; the property's oracle is also evaluated on the implementation alone.",
+   note=TB + "bbolt's B+tree/cursor semantics are not modelled (the correspondence is what found the cursor-skip defect F4, now fixed in /repo).",
+   technique="Lean 4 proof (invariant by induction over publish/coin histories) + acceptor-mode correspondence on the real Bolt file",
+   design="§8 C10"),
+ "C12": dict(
+   text="Theorems: for every payload string and every id/type free of line breaks, the reference W3C parser applied to Event.encode yields exactly one event with the published id, type, retry and LF-normalised data; a stream made of ':' comments and events in any order decodes to exactly the events written. The replacer pairs and format strings of Event.String are regenerated from event.go and checked against the model. Tie: Event.String vs the Lean encoder on a payload grammar, the harness's own parser vs the Lean parser, and end-to-end POST -> live and replayed streams on both transports.",
+   note=TB + "JSON re-serialisation in the Bolt replay path and form decoding are library behaviour (compared end to end, not proved). Ids/types containing line breaks are outside the property (the hub accepts them).",
+   technique="Lean 4 proof (round-trip by induction over the payload and over the chunk list) + differential correspondence",
+   design="§8 C12"),
  "C02": dict(
    text="Theorems over the executable model of PublishHandler: a POST is accepted iff it carries a valid publisher token whose mercure.publish is defined and covers every topic ('*' or a matching selector, at any position) or the version-7 mode applies to a non-private update, and the body is well-formed; every refusal is a 4xx with a fixed text; canDispatch is position-independent. The model is run against Hub.ServeHTTP on both transports on generated requests; after every request a '*' watcher, the last event id and the Bolt history are checked for 'no effect'.",
    note=TB + "Token verification is C03's; the selector relation is C11's (matchSpec). A hub built with no publisher key is outside the property's configurations (C19).",
